@@ -919,6 +919,29 @@ def gen_tables(repo):
                     and rev is None
                 )
                 keys.append((m, "len_path" if ok else "other"))
+    vd = find_class(stree, "ValidatedData")
+    vd_src = ast.unparse(find_method(vd, "__init__"))
+    rt_src = ast.unparse(rt)
+    L.append("/-- `ValidatedData.__init__` validates on `copy.deepcopy(self.data.get_original())`, and `Rule.test` on `_data_copy or copy.deepcopy(data.get_original())` -/")
+    deep = "copy.deepcopy(self.data.get_original())" in vd_src and "_data_copy or copy.deepcopy(data.get_original())" in rt_src
+    L.append(f"def validateDeepCopies : Bool := {'true' if deep else 'false'}")
+    L.append("/-- `Rule.test` writes cast values into the private copy only (`parent = data_copy`) -/")
+    L.append(f"def castWritesToCopy : Bool := {'true' if ('parent = data_copy' in rt_src and 'parent[datum_path[-1]] = datum' in rt_src) else 'false'}")
+    add = find_method(sch, "add_schema")
+    add_src = ast.unparse(add)
+    writes_rule = any(
+        isinstance(n, (ast.Assign, ast.AugAssign)) and any(
+            isinstance(t, ast.Attribute) and isinstance(t.value, ast.Name) and t.value.id == "rule"
+            for t in (n.targets if isinstance(n, ast.Assign) else [n.target]))
+        for n in ast.walk(add))
+    builds_new = "Rule(" in add_src and "root_path / rule.path" in add_src
+    L.append("/-- `Schema.add_schema` builds new Rule objects (path = root_path / rule.path, same condition, cast, doc) and never assigns to an attribute of the added schema's rules -/")
+    L.append(f"def addSchemaBuildsNewRules : Bool := {'true' if (builds_new and not writes_rule) else 'false'}")
+    dsrc2 = open(os.path.join(repo, "valida", "datapath.py")).read()
+    td = find_method(find_class(ast.parse(dsrc2), "DataPath"), "__truediv__")
+    td_src = ast.unparse(td)
+    L.append("/-- `DataPath.__truediv__(other: DataPath)` is `DataPath(*self.parts, *other.parts)` -/")
+    L.append(f"def truedivConcatenatesParts : Bool := {'true' if 'DataPath(*self.parts, *other.parts)' in td_src else 'false'}")
     L.append("/-- sort keys used by Schema.__init__ / add_schema (`len_path` = `sorted(rules, key=lambda i: len(i.path))`) -/")
     L.append("def schemaSortKeys : List (String × String) := " + lean_list(f"({lstr(a)}, {lstr(b)})" for a, b in keys))
     L.append("")
